@@ -329,7 +329,7 @@ def _int_new(it, cls, a, k):
         return sym.trunc_int(x)
     if isinstance(x, SBV):
         return x.to_int()
-    if isinstance(x, (int, float, str, bool)):
+    if isinstance(x, (int, float, str, bool, fractions.Fraction)):
         try:
             return int(x)
         except ValueError:
